@@ -215,6 +215,7 @@ type vStoreCheck struct {
 	Before   bool   `json:"before"`
 	After    bool   `json:"after"`
 	Other    bool   `json:"other_changed"`
+	Via      string `json:"via,omitempty"`
 }
 
 func (s *vSim) privPresent(n *vNode, ly *vC15Layout) map[int]bool {
@@ -282,6 +283,47 @@ func (s *vSim) runC15Scenario(sc vScenario, ly *vC15Layout, dir string, checks *
 	for len(s.pending) > 0 && guard < 300 {
 		s.exec(&vOp{Op: "deliver", M: s.pending[0]})
 		guard++
+	}
+	// 2b. a private transaction that is ALREADY on the DAG of a node which lacks its payload (every private transaction until a
+	// listed participant answers the payload query; for ever at non-participants) is offered AGAIN inside a TransactionList, now with
+	// bytes that are not its payload. Node 5 (lacks most of the DAG) asks the holder for [trunk+2, honest-AB] after a gossip; the
+	// answer comes in three chunks on that live conversation: 1/3 the transactions (private one without payload), 2/3 the known
+	// private transaction + made-up bytes, 3/3 the same + the payload of ANOTHER private transaction. Nothing may be stored.
+	{
+		pAB := ly.priv[0]
+		n5 := s.nodes[5]
+		before := len(s.sent)
+		s.exec(&vOp{Op: "inject", From: 0, To: 5, Msg: &vMsg{T: "gossip", LC: 60, XSet: [][2]int{{ly.trunk, ly.trunk + ly.L}}, Refs: []int{ly.trunk + 2, pAB}}})
+		var cid *[2]int
+		for _, pk := range s.sent[before:] {
+			if pk.kind == "lq" && pk.src == 5 {
+				e := &Envelope{}
+				_ = proto.Unmarshal(pk.wire, e)
+				if c, ok := s.cidName[string(e.GetTransactionListQuery().ConversationID)]; ok {
+					cc := c
+					cid = &cc
+				}
+			}
+		}
+		if cid == nil {
+			cid = &[2]int{7, 97}
+		}
+		s.exec(&vOp{Op: "inject", From: 0, To: 5, Msg: &vMsg{T: "tl", C: cid, Num: 1, Total: 3,
+			Txs: []vNetTx{{I: ly.trunk + 2, Pl: s.u.payID[s.u.txs[ly.trunk+2].ph]}, {I: pAB}}}})
+		other := s.u.payID[s.u.txs[ly.priv[2]].ph]
+		for k, d := range []string{ly.mism, other} {
+			bf := s.privPresent(n5, ly)
+			opIdx := s.out.nOps
+			s.exec(&vOp{Op: "inject", From: 0, To: 5, Msg: &vMsg{T: "tl", C: cid, Num: uint32(2 + k), Total: 3, Txs: []vNetTx{{I: pAB, Pl: d}}}})
+			af := s.privPresent(n5, ly)
+			c := vStoreCheck{Scenario: sc.Name, Op: opIdx, Node: 5, Tx: pAB, Data: d, Via: "tl", TxKnown: n5.added[s.u.txs[pAB].ref], Matches: false, Before: bf[pAB], After: af[pAB]}
+			for kk := range bf {
+				if kk != pAB && bf[kk] != af[kk] && s.u.txs[kk].ph != s.u.txs[pAB].ph {
+					c.Other = true
+				}
+			}
+			*checks = append(*checks, c)
+		}
 	}
 	// 3. payloads received: solicited/unsolicited, matching, mismatching, for unknown transactions, empty
 	for _, to := range []int{1, 2, 4, 5} {
